@@ -196,10 +196,78 @@ class CallMixin:
         self.escape(st, v)
 
     # ------------------------------------------------------------------ segment end / havoc
+    # ------------------------------------------------------------------ frame rule (private writes preserve the class invariants)
+    FRAME_CONT = ("d_has", "d_get", "d_len", "l_len", "l_item", "s_has", "s_len")
+    FRAME_OK = set(FRAME_CONT) | {"alloc", "g:owner", "fld:__class__", "w_dict", "mycalls"}
+
+    def frame_premise(self, old, new, comps_changed):
+        """the writes since `old` touched containers only at private addresses: allocated since `old`, or owned by nobody in `old`;
+        module-level objects (negative addresses) are never private; ownership and class tags of existing objects are unchanged and
+        new objects are owned by nobody"""
+        x = z3.Const("x!fr", I)
+        nobody = con("own:nobody")
+        priv = z3.And(x >= 0, z3.Or(x >= old.alloc, z3.Select(old.g("g:owner"), x) == nobody))
+        out = [("alloc-monotone", z3.And(new.alloc >= old.alloc, old.alloc >= 0))]
+        for c in self.FRAME_CONT:
+            if comps_changed is None or c in comps_changed:
+                out.append((f"only-private-containers-written:{c}",
+                            z3.ForAll([x], z3.Or(z3.Select(new.h(c), x) == z3.Select(old.h(c), x), priv), patterns=[z3.Select(new.h(c), x)])))
+        if comps_changed is None or "g:owner" in comps_changed:
+            out.append(("ownership-changes-only-by-new-objects-owned-by-nobody",
+                        z3.ForAll([x], z3.Or(z3.Select(new.g("g:owner"), x) == z3.Select(old.g("g:owner"), x),
+                                             z3.And(x >= old.alloc, z3.Select(new.g("g:owner"), x) == nobody)),
+                                  patterns=[z3.Select(new.g("g:owner"), x)])))
+        if comps_changed is None or "fld:__class__" in comps_changed:
+            out.append(("class-of-existing-objects-unchanged",
+                        z3.ForAll([x], z3.Implies(z3.And(0 <= x, x < old.alloc), z3.Select(new.h("fld:__class__"), x) == z3.Select(old.h("fld:__class__"), x)),
+                                  patterns=[z3.Select(new.h("fld:__class__"), x)])))
+        return out
+
+    def frame_lemmas(self):
+        """Lemma FR(I), proved once per run for every class invariant I and guarantee G (obligations of the pseudo-function `lemma:frame`):
+        all invariants at H and frame_premise(H, H') imply I(H') resp. G(H, H').  -> {name: discharged?}"""
+        if getattr(self.reg, "_frame_lemmas", None) is not None:
+            return self.reg._frame_lemmas
+        import time as _t
+        H = self.fresh_heap("FA")
+        H2 = dict(H)
+        for c in self.FRAME_CONT + ("alloc", "g:owner", "fld:__class__"):
+            H2[c] = fresh("FB." + c, self.comps[c])
+        A, Bv = HeapView(H), HeapView(H2)
+        hyps = [f for _, f in self.frame_premise(A, Bv, None)] + [e[1](A) for e in self.reg.invariants]
+        res, obls = {}, []
+        goals = [(e[0], e[1](Bv)) for e in self.reg.invariants] + [(e[0], e[1](A, Bv)) for e in self.reg.guarantees]
+        for (name, goal) in goals + [("canary:frame-hypotheses-not-contradictory", None)]:
+            s = z3.Solver()
+            s.set("timeout", 20000 if goal is not None else 3000)
+            for a in self.axioms:
+                s.add(a)
+            for f in hyps:
+                s.add(f)
+            if goal is not None:
+                s.add(z3.Not(goal))
+            t0 = _t.time()
+            r = s.check()
+            if goal is None:
+                ok = r != z3.unsat
+            else:
+                ok = r == z3.unsat
+                res[name] = ok
+            obls.append({"id": f"lemma:frame#{'canary' if goal is None else 'lemma'}:{name}", "kind": "canary" if goal is None else "lemma",
+                         "path": "", "uses": [], "expect": "not-unsat" if goal is None else "unsat",
+                         "status": "discharged" if ok else "unknown", "backend": "z3-5.1(api)", "seconds": _t.time() - t0})
+            if goal is None and not ok:
+                res = {k: False for k in res}
+        self.reg._frame_lemmas = res
+        self.reg._frame_obls = obls
+        return res
+
     def segment_end(self, st: State, anchor: str):
         """An atomic segment ends here (suspension point, opaque call or function exit):
         prove the guarantee and the class invariants the environment relies on.  A clause whose footprint
-        (the heap components it reads) is untouched since the segment began holds trivially and is skipped."""
+        (the heap components it reads) is untouched since the segment began holds trivially and is skipped.
+        Contracts with `frame_rule`: a clause whose footprint was written only in container components is discharged by the frame
+        lemma FR (proved separately) from one shared premise: only private containers were written."""
         if not self.spec or not self.spec.check_guarantee:
             return
         changed = {c for c in self.comps if not (st.heap[c] is st.seg.get(c) or st.heap[c].eq(st.seg[c]))}
@@ -208,10 +276,24 @@ class CallMixin:
         st.name_heap()
         old = HeapView(st.seg)
         new = HeapView(st.heap)
+        lem = self.frame_lemmas() if getattr(self.spec, "frame_rule", False) else {}
+        premise_done = []
+
+        def by_frame(name, fp):
+            if not lem.get(name) or fp is None or not ((set(fp) & changed) <= self.FRAME_OK):
+                return False
+            if not premise_done:
+                premise_done.append(1)
+                for (n, f) in self.frame_premise(old, new, changed):
+                    self.oblige(st, "frame", n, f, anchor)
+                st.uses.add("lemma:frame")
+            return True
         for entry in self.reg.guarantees:
             name, fn = entry[0], entry[1]
             fp = entry[2] if len(entry) > 2 else None
             if fp is not None and not (set(fp) & changed):
+                continue
+            if by_frame(name, fp):
                 continue
             self.oblige(st, "guar", name, fn(old, new), anchor)
         for entry in self.reg.invariants:
@@ -221,7 +303,14 @@ class CallMixin:
                 continue
             if fp is not None and not (set(fp) & changed):
                 continue
+            if by_frame(name, fp):
+                continue
             self.oblige(st, "inv", name, fn(new), anchor)
+
+    def close_segment(self, st: State, anchor: str):
+        """frame_rule contracts: end the atomic segment here (sound: more boundaries, each proved) and start a new one"""
+        self.segment_end(st, anchor)
+        st.seg = dict(st.heap)
 
     def assume_invariant(self, st: State, entry, H):
         """class invariants are hypotheses; `lazy` ones only for the obligations that ask for them"""
@@ -362,9 +451,14 @@ class CallMixin:
         res = fresh("ret")
         self.wf_value(ok, res)
         ok.trace.append(("opaque", f, args, SV(res, ANY), anc))
+        rv = SV(res, ANY)
+        for key, (rty, aid) in getattr(self.spec, "opaque_result_types", {}).items() if self.spec is not None else ():
+            if key in anc:
+                rv = self.typed(ok, res, rty)
+                ok.uses.add(aid)
         if self.spec is not None:
-            self.spec.after_opaque_call(self, st, ok, f, args, SV(res, ANY), None, anc)
-        out.append(Res(ok, SV(res, ANY)))
+            self.spec.after_opaque_call(self, st, ok, f, args, rv, None, anc)
+        out.append(Res(ok, rv))
         bad = s2.copy()
         bad.tags.append("raises")
         e = self.unknown_exception(bad)
@@ -397,6 +491,7 @@ class CallMixin:
         if self.spec is not None:
             self.spec.on_await(self, st, awaited, anc)
         self.segment_end(st, anc)
+        st.trace.append(("suspend", anc))
         s2 = self.havoc(st, anc)
         s2.suspended = z3.BoolVal(True)
         ok = s2.copy()
@@ -472,6 +567,24 @@ class CallMixin:
                 return h(node, st)
         # general case: evaluate callee, then arguments
         out = []
+        if (isinstance(f, ast.Attribute) and isinstance(f.value, ast.Call) and isinstance(f.value.func, ast.Name)
+                and f.value.func.id == "super" and not f.value.args and self.fi.cls and "self" in st.env):
+            # zero-argument super(): the next definition of the method in the static MRO of the defining class (single inheritance
+            # inside the package: the receiver's dynamic class has the same linearisation suffix)
+            target = None
+            for c in self.world.mro(self.fi.cls)[1:]:
+                ci = self.world.classes[c]
+                target = self.world.funcs.get(f"{ci.module}.{c}.{f.attr}")
+                if target:
+                    break
+            if target is None or target.qual not in self.reg.specs:
+                raise Untranslatable(f"super().{f.attr} has no contract")
+            for (s, p, kw, packs, exc) in self.eval_args(node, st):
+                if exc is not None:
+                    out.append(Res(s, None, exc))
+                    continue
+                out.extend(self.call_spec(s, target.qual, [s.env["self"]] + p, kw, self.anchor_for(node), awaited=awaited, packs=packs))
+            return out
         if isinstance(f, ast.Attribute):
             for r in self.eval(f.value, st):
                 if r.exc is not None:
@@ -556,7 +669,8 @@ class CallMixin:
             fi = self.world.find_method(ty.name, meth)
             if fi is not None:
                 if fi.qual in self.reg.specs:
-                    return self.call_spec(st, fi.qual, [recv] + pos, kw, self.anchor_for(node), awaited=awaited, packs=packs)
+                    first = [] if "staticmethod" in fi.decorators else [recv]
+                    return self.call_spec(st, fi.qual, first + pos, kw, self.anchor_for(node), awaited=awaited, packs=packs)
                 return self.opaque_call(st, recv, pos + list(kw.values()), None, f"call({ty.name}.{meth})")
             raise Untranslatable(f"unknown method {ty.name}.{meth}")
         if k == "lib":
@@ -566,7 +680,17 @@ class CallMixin:
                 return self.call_value(r.st, r.val, pos, kw, packs, node, awaited)
         if k == "exc":
             raise Untranslatable(f"method call on exception: {meth}")
-        # method of a value of unknown type: user code
+        # method of a value of unknown type: user code - unless the value is a str and the method is a modelled str method
+        h = getattr(self, f"m_str_{meth}", None)
+        if h is not None and k == "any":
+            isstr = z3.And(Val.is_str(recv.t), is_str_u(recv.t))
+            s1, s2 = st.fork(isstr, "is-str"), st.fork(z3.Not(isstr))
+            out = []
+            if self.feasible(s1):
+                out.extend(h(s1, SV(recv.t, TSTR), pos, kw, node))
+            if self.feasible(s2) and self.feasible_full(s2):
+                out.extend(self.opaque_call(s2, recv, pos + list(kw.values()) + list(packs), None, f"call(.{meth})"))
+            return out
         return self.opaque_call(st, recv, pos + list(kw.values()) + list(packs), None, f"call(.{meth})")
 
     # ------------------------------------------------------------------ contracted call (modular)
@@ -643,11 +767,34 @@ class CallMixin:
             self.escape(st, v)
         if spec.assumed:
             st.uses.add(spec.assumed)
-        st.trace.append(("spec_call", qual, dict(args)))
+        st.trace.append(("spec_call", qual, dict(args), HeapView(dict(st.heap))))
+        if self.spec is not None and hasattr(self.spec, "on_spec_call"):
+            self.spec.on_spec_call(self, st, qual, args, anchor)
         F0 = Frame(self, st, st, args)
+        if getattr(spec, "soft_requires", None):
+            # argument typing the caller cannot establish: when it fails the callee raises before touching anything that existed
+            # (assumed, id in spec.soft_requires); the contract applies on the other branch
+            pre = z3.And(*[f for (_, f) in spec.requires(F0)])
+            s_bad = st.fork(z3.Not(pre), f"{anchor}-bad-arguments")
+            outs = []
+            if self.feasible(s_bad) and self.feasible_full(s_bad):
+                s_bad.uses.add(spec.soft_requires)
+                e = self.unknown_exception(s_bad)
+                s_bad.assume(subcls(s_bad.fld("__class__", Val.a(e.t)), con("Exception")))
+                s_bad.trace.append(("spec_raise", qual, dict(args), e))
+                outs.append(Res(s_bad, None, e))
+            st = st.fork(pre)
+            if not self.feasible(st):
+                return outs
+            return outs + self._call_spec_checked(st, spec, qual, args, anchor)
         for (name, f) in spec.requires(F0):
             self.oblige(st, "pre", f"{qual.split('.', 1)[-1]}.{name}", f, anchor)
             st.assume(f)        # assert-then-assume: the obligation above must be discharged for the run to pass
+        return self._call_spec_checked(st, spec, qual, args, anchor)
+
+    def _call_spec_checked(self, st, spec, qual, args, anchor):
+        from .specs import Frame
+        F0 = Frame(self, st, st, args)
         pw = spec.pure_when(F0)
         if pw is not None and not getattr(self, "_in_pure_split", False):
             # the call has no effect at all when `pw` holds: split, so that callers keep the whole heap on that branch
@@ -669,6 +816,10 @@ class CallMixin:
         from .specs import Frame
         if spec.suspends and not pure:
             self.segment_end(st, anchor)
+            st.trace.append(("suspend", anchor))
+        elif (not pure and self.spec is not None and getattr(self.spec, "frame_rule", False) and self.spec.check_guarantee
+              and not spec.assumed and spec.check_guarantee):
+            self.close_segment(st, anchor)
         s2 = st.copy()
         old_alloc = st.heap["alloc"]
         if pure:
@@ -690,6 +841,20 @@ class CallMixin:
                         continue
                     # the callee's own segments keep the guarantee; rarely needed by the caller: second-stage hypothesis
                     s2.heavy.append(entry[1](old, new))
+                clean = all(st.heap[c] is st.seg.get(c) or st.heap[c].eq(st.seg[c]) for c in self.comps if c not in ("alloc", "w_dict", "mycalls"))
+                import os
+                if os.environ.get("PYVC_DEBUG_CLEAN"):
+                    print("CLEAN?", qual, clean, [c for c in self.comps if not (st.heap[c] is st.seg.get(c) or st.heap[c].eq(st.seg[c]))])
+                if clean and spec.check_guarantee and self.spec is not None and self.spec.check_guarantee:
+                    # the caller's atomic segment has written nothing so far: what the callee did is exactly what the callee's own
+                    # verification covers (its guarantee and class-invariant obligations at its exit), so the caller's segment
+                    # restarts at the callee's post-state with the class invariants as established by the callee
+                    s2.seg = dict(s2.heap)
+                    mod = set(spec.modifies)
+                    for entry in self.reg.invariants:
+                        fp = entry[2] if len(entry) > 2 else None
+                        if fp is None or (set(fp) & mod):
+                            self.assume_invariant(s2, entry, new)
         out = []
         ok = s2.copy()
         if qual == "_event.Signal.dispatch":
@@ -704,8 +869,14 @@ class CallMixin:
                 ok.heavy.append(f)       # rarely needed by callers: second-stage hypothesis
             else:
                 ok.assume(f)
+        if spec.result_owned:
+            ra = Val.a(rt)
+            ok.owned.append(ra)
+            ok.loopvars = dict(ok.loopvars)
+            ok.loopvars["owned_kind"] = dict(ok.loopvars.get("owned_kind", {}))
+            ok.loopvars["owned_kind"][ra.get_id()] = spec.result_owned
         if self.feasible(ok):
-            ok.trace.append(("spec_ret", qual, dict(args)))
+            ok.trace.append(("spec_ret", qual, dict(args), res))
             out.append(Res(ok, res))
         if spec.may_raise:
             bad = s2.copy()
@@ -716,6 +887,7 @@ class CallMixin:
             for (name, f) in spec.raises(F):
                 bad.assume(f)
             if self.feasible(bad):
+                bad.trace.append(("spec_raise", qual, dict(args), e))
                 out.append(Res(bad, None, e))
         return out
 
